@@ -175,7 +175,7 @@ PROPS = {
         "technique": "kind propagation (NODE/WORD/END), must-pass-through and loop-guard rules",
     },
     "C13": {
-        "rules": [r_reset.run_counts, r_viterbi.pred, r_misc.enumall, r_fmt.mapping_files,
+        "rules": [r_reset.run_counts, r_viterbi.pred, r_misc.enumall, r_misc.sortcmp, r_fmt.mapping_files,
                   kind_scope("mapper", "worker", "lattice")],
         "explanation": "RESET(W2, counts scope): update_connid_counts reads only a lattice that "
                        "the current reset_sentence/tokenize refreshed (or returns for an empty "
@@ -188,7 +188,7 @@ PROPS = {
                        "list, and map parses column 0 of a TAB separated line.",
         "level_text": "Static dataflow/shape rules: counts come from the current sentence only, "
                       "counted pairs are the evaluated pairs, the output is a complete "
-                      "enumeration minus id 0. The sort order by frequency is not decided.",
+                      "enumeration minus id 0. The comparator shape (frequency descending, id ascending) is decided by SORTCMP; the frequencies themselves are not.",
         "level_note": "Trusted: rustc MIR; spec/api_model.json; spec/kinds.json.",
         "technique": "typestate dataflow, access-path pairing rule, iterator-chain shape rule, "
                      "kind propagation",
@@ -419,6 +419,9 @@ _ADDED = {
             "remainder of its own row after the fourth field and an earlier (skipped) row leaves "
             "nothing behind. Re-deriving the feature by comma-splitting text is reported.",
             "path-sensitive abstract interpretation of the CSV parsing loop"),
+    "C13": ("SORTCMP: both sort comparators of compute_probs compare second.prob with first.prob "
+            "(non-increasing frequency) and break ties by first.id against second.id (ascending).",
+            "comparator shape rule over closure MIR"),
     "C14": ("QUOTER: every byte quote_csv_cell writes comes from the csv-core writer's output "
             "buffer and Writer::finish precedes Ok. IDXBASE: a 1-based feature id indexes rucrf's "
             "unigram table as id-1 and the bigram table (slot 0 = BOS/EOS) as id. "
